@@ -177,7 +177,7 @@ def run_shard(shard, tier, rec):
     ow.explore_with_probes(rec, (h, m0, ("root", repr(shard))), enabled, step, shard["depth"])
 
 
-OWN = ("f5", "f7", "f8", "f9", "f13")
+OWN = ("f5", "f7", "f8", "f9", "f12", "f13")
 
 
 def step_checked(rec, w, shard, hist_, ms, op):
